@@ -87,6 +87,43 @@ class Secrets:
             self._tries[fi.qual] = m
         return m
 
+    def _guarded_lookup(self, fi, n):
+        """d[k] under `if k in d:` (or after `if k not in d: <leave>`) cannot miss"""
+        key, base = src(n.slice), src(n.value)
+
+        def is_in(test, neg):
+            for c in ast.walk(test):
+                if isinstance(c, ast.Compare) and len(c.ops) == 1 and isinstance(c.ops[0], ast.NotIn if neg else ast.In) \
+                        and src(c.left) == key and src(c.comparators[0]) == base:
+                    return True
+            return False
+
+        def find(stmts):
+            for i, st in enumerate(stmts):
+                if any(x is n for x in ast.walk(st)):
+                    # guard clause earlier in the same block
+                    for prev in stmts[:i]:
+                        if isinstance(prev, ast.If) and is_in(prev.test, True) and prev.body and isinstance(
+                                prev.body[-1], (ast.Return, ast.Raise, ast.Continue, ast.Break)):
+                            return True
+                    if isinstance(st, ast.If):
+                        if any(x is n for b in st.body for x in ast.walk(b)):
+                            return (is_in(st.test, False) and not isinstance(st.test, ast.BoolOp)) or \
+                                (isinstance(st.test, ast.BoolOp) and isinstance(st.test.op, ast.And) and is_in(st.test, False)) or find(st.body)
+                        if any(x is n for b in st.orelse for x in ast.walk(b)):
+                            return (is_in(st.test, True) and not isinstance(st.test, ast.BoolOp)) or find(st.orelse)
+                        return False
+                    for fld in ('body', 'orelse', 'finalbody', 'handlers'):
+                        sub = getattr(st, fld, None)
+                        if isinstance(sub, list) and sub:
+                            blocks = [h.body for h in sub] if fld == 'handlers' else [sub]
+                            for b in blocks:
+                                if any(x is n for y in b for x in ast.walk(y)):
+                                    return find(b)
+                    return False
+            return False
+        return find(fi.node.body)
+
     def _implicit(self, fi, n, exc, tainted_locals):
         """an operation at node n raises `exc` with a secret operand in its text: caught in this function -> the handler's variable
         is tainted (nothing if it binds none); otherwise the exception class is tainted for every handler that can catch it"""
@@ -243,7 +280,7 @@ class Secrets:
                             self.exc.add(name)
                             changed = True
                     elif isinstance(n, ast.Subscript) and isinstance(n.ctx, ast.Load) and not isinstance(n.slice, (ast.Slice, ast.Constant)) \
-                            and self.why(fi, n.slice):
+                            and self.why(fi, n.slice) and not self._guarded_lookup(fi, n):
                         # a mapping lookup that misses raises KeyError(key): the exception text is the key
                         if self._implicit(fi, n, 'KeyError', t):
                             changed = True
